@@ -74,9 +74,11 @@ package jschema
 //@   modifies pool_state(), mapof(b.processedTypes)
 //@   ensures result1 == nil ==> notPooled(result0)
 //@   loop#1 invariant -1 <= rangeindex && rangeindex < len(children) && buf != nil && pool_buffer(buf) && pool_held(buf) && b != nil
-//-  (C06, the example is JSON: members that have no example are skipped, and the closing bracket never follows a separator)
-//@   loop#1 invariant !buf_sep(buf)
+//-  (C06, the example is JSON: members that have no example are skipped; a closing bracket never follows a separator,
+//-   and a separator never follows an opening bracket or another separator)
+//@   loop#1 invariant !buf_sep(buf) && (written ==> !buf_open(buf))
 //@   at call:WriteByte assert (arg1 == 125 || arg1 == 93) ==> !buf_sep(arg0)
+//@   at call:WriteByte assert arg1 == 44 ==> !buf_sep(arg0) && !buf_open(arg0)
 //@   loop#1 decreases len(children) - rangeindex
 
 //@ func (*exampleBuilder).buildObjectKey
@@ -93,9 +95,11 @@ package jschema
 //@   modifies pool_state(), mapof(b.processedTypes)
 //@   ensures result1 == nil ==> notPooled(result0)
 //@   loop#1 invariant -1 <= rangeindex && rangeindex < len(children) && buf != nil && pool_buffer(buf) && pool_held(buf) && b != nil
-//-  (C06, the example is JSON: members that have no example are skipped, and the closing bracket never follows a separator)
-//@   loop#1 invariant !buf_sep(buf)
+//-  (C06, the example is JSON: members that have no example are skipped; a closing bracket never follows a separator,
+//-   and a separator never follows an opening bracket or another separator)
+//@   loop#1 invariant !buf_sep(buf) && (written ==> !buf_open(buf))
 //@   at call:WriteByte assert (arg1 == 125 || arg1 == 93) ==> !buf_sep(arg0)
+//@   at call:WriteByte assert arg1 == 44 ==> !buf_sep(arg0) && !buf_open(arg0)
 //@   loop#1 decreases len(children) - rangeindex
 
 // (C06, termination of Example(): a type is expanded only while fewer than two expansions of it are open, and the
